@@ -1,6 +1,7 @@
 import Csverif.Driver.EngineBase
 import Csverif.Driver.EngineXfer
 import Csverif.Driver.EngineMore
+import Csverif.Driver.EngineRefresh
 /- Driver layer `engine` (differential tie of the engine decision tables; one line in, one canonical line out).
 
   `<op> <side> <L> <R> <lLeR> <ign> <prio> <oracle> <pcPrio>`
@@ -26,6 +27,7 @@ open CS.Hints (Ex OT Ign)
 def step (toks : List String) : String :=
   if (toks.head?.getD "").startsWith "x" then EngineXfer.step toks else
   if (toks.head?.getD "").startsWith "y" then EngineMore.step toks else
+  if (toks.head?.getD "").startsWith "z" then EngineRefresh.step toks else
   match toks with
   | [op, sd, l, r, ord, ign, prio, orc, pc] =>
     match decSd sd, decSide l, decSide r, (ord.toList.head?).bind decB, decIgn ign, prio.toInt?, decOracle orc pc with
